@@ -301,6 +301,9 @@ class CCodeGenerator:
                     cval = 0
                 bitsize = self.context.eval_expr(field.bitsize)
                 new_bits = value_to_bits(cval, bitsize)
+                # Skip the padding bits in front of this bit-field, if any:
+                position = self.mem_len(mem) * 8 + len(bits)
+                bits.extend([0] * (field_offsets[field] - position))
                 bits.extend(new_bits)
             else:
                 # Flush bits:
